@@ -28,6 +28,14 @@ pub fn run(ctx: &mut Ctx) {
         }
         return;
     }
+    if wl == "C05r" {
+        crate::c05::dbg_repeat(ctx.seed, case);
+        return;
+    }
+    if wl == "C05v" {
+        crate::c05::dbg_variants(ctx.seed, case, 10);
+        return;
+    }
     let (p, st) = match wl.as_str() {
         "C06" => {
             let mut rng = Rng::for_case(ctx.seed, "C06/family_G", case);
